@@ -237,7 +237,8 @@ def closure_factories(r, seed, tier, model_ok):
         slots = [(j, p) for j in range(k) for p in range(ar[j])]
         if not slots: continue
         refs = [R.choice(slots) for _ in range(R.randrange(1, 4))]
-        body = lst([f"{E(p)}ㅇ{E(k - 1 - j)}" for j, p in refs])
+        neg = R.random() < .5            # the nesting index counted from the OUTERMOST function (negative) or from the innermost one: same frame
+        body = lst([f"{E(p)}ㅇ{E(-1 - j if neg and R.random() < .8 else k - 1 - j)}" for j, p in refs])
         fac = body
         for _ in range(k): fac = f"({fac} ㅎ)"
         m = R.randrange(2, 5); style = R.choice(["full", "full", "shared-prefix", "reversed"])
